@@ -175,7 +175,8 @@ Definition insts_of_result (r : result) : list inst :=
   match r with RVal a => insts_of_aval a | _ => [] end.
 (* every instance handed to user code in a step: constructor arguments and the result *)
 Definition handed_in_step (s : list event * result) : list inst :=
-  flat_map insts_of_event (fst s) ++ insts_of_result (snd s).
+  filter (fun i => negb (is_nil_member i))     (* the nil element of a group slice is nobody's instance *)
+         (flat_map insts_of_event (fst s) ++ insts_of_result (snd s)).
 
 Definition outputs_of_ctor (rs : list reg) (rid inv : nat) : list inst :=
   match find_reg rs rid with
